@@ -96,3 +96,5 @@ Definition LIMIT : Z := 1048576.
 (* vocabulary of the effect-order skeletons regenerated from node_service.go *)
 Inductive pstep := PLoadOffset | PGetMessages | PProcess | PSaveOffset.
 Inductive xstep := XLookup | XSend | XSaveFSM | XDelete.
+(* cmd/airgapped, set_seed: what the command does to the machine's keys *)
+Inductive kstep := KSetSeed | KGenerate | KInit | KLoad.
